@@ -159,7 +159,7 @@ func genSchemaQuery(t *rapid.T, s *LSchema) Query {
 
 // POp is one step of a pooled-decoder program.  Handle indices are taken modulo the live set.
 type POp struct {
-	Kind   string `json:"kind"` // decode | acc | range | close
+	Kind   string `json:"kind"` // decode | acc | range | close | nested | closenested
 	Input  int    `json:"input,omitempty"`
 	Handle int    `json:"handle,omitempty"`
 	Query  *Query `json:"query,omitempty"`
@@ -190,6 +190,8 @@ type pstats struct {
 	recycledReads int
 	recycles      int
 	steps         int
+	nestedHandles int
+	nestedCloses  int
 }
 
 func oracleC14(c *PCase) (f *ev.Failure, st pstats) {
@@ -216,6 +218,7 @@ func oracleC14(c *PCase) (f *ev.Failure, st pstats) {
 		return ev.Failf("C14/newdecoder-error", "NewDecoder: %v", err), st
 	}
 	var live []*handle
+	var nestedHandles []*lazyproto.DecodeResult // nested results kept by the program; only ever Close()d again
 	var snaps []snapshot
 	closedPtrs := map[*lazyproto.DecodeResult]bool{}
 	recycled := map[*lazyproto.DecodeResult]bool{}
@@ -302,6 +305,33 @@ func oracleC14(c *PCase) (f *ev.Failure, st pstats) {
 			if bad != "" || fmt.Sprint(gotTags) != fmt.Sprint(wantTags) {
 				return ev.Failf("C14/range", "step %d: Range on the result of input #%d visited %v (%s), the definition declares %v", i, h.input, gotTags, bad, wantTags), st
 			}
+		case "nested":
+			var ntags []int
+			for _, dt := range c.Def.Tags {
+				if dt.Nested != nil && dt.Tag > 0 {
+					ntags = append(ntags, dt.Tag)
+				}
+			}
+			if len(live) == 0 || len(ntags) == 0 {
+				continue
+			}
+			h := live[op.Handle%len(live)]
+			stage = "NestedResult"
+			if nr, err := h.res.NestedResult(ntags[op.Input%len(ntags)]); err == nil && nr != nil {
+				nestedHandles = append(nestedHandles, nr)
+				st.nestedHandles++
+			}
+		case "closenested":
+			if len(nestedHandles) == 0 {
+				continue
+			}
+			k := op.Handle % len(nestedHandles)
+			stage = "Close(nested)"
+			if err := nestedHandles[k].Close(); err != nil {
+				return ev.Failf("C14/close-error", "step %d: Close on a nested result: %v", i, err), st
+			}
+			nestedHandles = append(nestedHandles[:k], nestedHandles[k+1:]...)
+			st.nestedCloses++
 		case "close":
 			if len(live) == 0 {
 				continue
@@ -366,7 +396,12 @@ func genPCase(t *rapid.T) *PCase {
 	nops := rapid.IntRange(1, 40).Draw(t, "nops")
 	for i := 0; i < nops; i++ {
 		op := POp{Handle: rapid.IntRange(0, 7).Draw(t, "handle")}
-		switch rapid.IntRange(0, 9).Draw(t, "opk") {
+		switch rapid.IntRange(0, 11).Draw(t, "opk") {
+		case 10:
+			op.Kind = "nested" // keep a handle to a nested result of a live result
+			op.Input = rapid.IntRange(0, 7).Draw(t, "ntag")
+		case 11:
+			op.Kind = "closenested" // Close on a nested handle (documented no-op), also after its parent was closed
 		case 0, 1, 2:
 			op.Kind = "decode"
 			op.Input = rapid.IntRange(0, n-1).Draw(t, "input")
@@ -389,7 +424,7 @@ func genPCase(t *rapid.T) *PCase {
 	return c
 }
 
-const ruleC14 = "case = options {safe, fast} x WithMaxBufferSize {unset, 0, 1, 2, 1024} x buffer filter {none, halving, to-zero, negative} + one definition (schema with 1..5 numbers, nested to depth 2) + a pool of 2..6 inputs of differing shapes (each number 0..5 occurrences, nested counts above and below the buffer limit, 1 in 12 nested elements not itself a well-formed message) + a program of <= 40 ops {Decode(i), accessor query incl. NestedResult(s) paths, Range, Close} on one Decoder; " +
+const ruleC14 = "case = options {safe, fast} x WithMaxBufferSize {unset, 0, 1, 2, 1024} x buffer filter {none, halving, to-zero, negative} + one definition (schema with 1..5 numbers, nested to depth 2) + a pool of 2..6 inputs of differing shapes (each number 0..5 occurrences, nested counts above and below the buffer limit, 1 in 12 nested elements not itself a well-formed message) + a program of <= 40 ops {Decode(i), accessor query incl. NestedResult(s) paths, Range, Close, keep a NestedResult handle, Close a kept nested handle - before or after its parent was closed} on one Decoder; " +
 	"model: every live handle remembers its input; each accessor must equal the reference parse of THAT input; in safe mode every slice/string handed out is re-read after every later step (incl. after Close and after the decoder re-used the pooled object) and must be unchanged; no op panics; finally everything is closed, every input decoded again and the hand-outs re-checked; " +
 	"non-trivial = a program in which a recycled result (same pointer as an earlier closed one) is read; distinct by case content"
 
@@ -414,6 +449,7 @@ func TestC14(t *testing.T) {
 		rec.Class(fmt.Sprintf("options/maxbuf=%d", c.MaxBuf))
 		rec.Class(fmt.Sprintf("options/filter=%d", c.Filter))
 		rec.ClassN("recycled-results", int64(st.recycles))
+		rec.ClassN("nested-handles-closed-explicitly", int64(st.nestedCloses))
 		if st.recycledReads > 0 {
 			rec.Class("program/reads-a-recycled-result")
 			cj, _ := json.Marshal(c)
